@@ -3,7 +3,7 @@
    Print Assumptions.  The model (Model.v) generates the C helpers as Base.CInt mini-C terms;
    C04_helpers_are_the_emitted_ones ties them to the C the real compiler generated on this run. *)
 From Base Require Import CInt.
-From C04 Require Import Gen Model ProofsNarrow Proofs.
+From C04 Require Import Gen Model ProofsNarrow ProofsDiv Proofs.
 Local Open Scope Z_scope.
 
 (* (T) every helper found in the generated C is, term for term, the one the model generates,
